@@ -24,7 +24,7 @@ def extract_surfaces(ast):
         return set()
 
     s = set()
-    if ast[0] == '^':
+    if ast[0] in ('^', '@'):
         return s
 
     if isinstance(ast[1], tuple):
@@ -48,7 +48,7 @@ def extract_surfaces_list(ast):
         return []
 
     l = []
-    if ast[0] == '^':
+    if ast[0] in ('^', '@'):
         return l
 
     if isinstance(ast[1], tuple):
